@@ -113,6 +113,8 @@ def run(ctx):
                     elif tables.post_value(_resolve_local(g, e)) == _resolve_poly(g, z, e):
                         zero = True
             rb.expect(busy and zero, '%s:trigger-guard' % name, c.loc, '%s must broadcast only when BUSY and the pending count produced by its own update is 0' % name, note='%s: signal only when BUSY and own post-value == 0' % name.split('_taskpool_')[1])
+    rc = ctx.rule('R12.c', 'msg_dispatch: the notification reaches dispatch_taskpool only after the latest lookup was tested registered, monitored and not NOT_READY; otherwise it is delayed under the list lock', floor=5)
+    check_dispatch(ctx, u, rc, 'parsec_termdet_user_trigger_msg_dispatch', 'parsec_termdet_user_trigger_msg_dispatch_taskpool')
 
 
 def _resolve_local(g, e):
@@ -129,3 +131,63 @@ def _resolve_poly(g, z, e):
                 t[tuple(sorted(repr(aff.norm(e.e)) if a == atom else a for a in mono))] = c
             return aff.Poly(t)
     return z
+
+
+def check_dispatch(ctx, u, rc, fname, target):
+    """A notification may be applied to a taskpool only when that taskpool is registered, monitored and READY; otherwise it is
+    parked in the delayed list that taskpool_ready replays.  On every path of msg_dispatch to msg_dispatch_taskpool, the three
+    tests (tp != NULL, monitor != NULL, state != NOT_READY) must have been made on the *latest* lookup of the taskpool: applied
+    to a taskpool that is not ready, the notification is consumed without effect and never replayed - the rank and its subtree
+    of the broadcast get no termination."""
+    f = u.func(fname); ctx.functions_analysed.add(f.name)
+    npaths = 0; bad = {}
+    for pi in pathq.all_paths(f, feasible_only=False):
+        calls = pi.calls(target)
+        if not calls:
+            continue
+        npaths += 1
+        cev, cenv = calls[0]
+        tpv = cev.args[0].s
+        # index of the last definition of the taskpool variable before the call
+        last = -1
+        for i, (ev, env) in enumerate(pi.steps):
+            if ev is cev:
+                break
+            if ev.kind == 'store' and ev.lhs.s == tpv:
+                last = i
+        seen = {'null': None, 'monitor': None, 'state': None}
+        for i, (ev, env) in enumerate(pi.steps):
+            if ev is cev:
+                break
+            if i <= last or ev.kind != 'assume' or not isinstance(ev.op, bool):
+                continue
+            atom, pol = cond_atom(ev.e)
+            truth = ev.op if pol else (not ev.op)
+            a = atom.s
+            if atom.k == 'ref' and a == tpv:
+                seen['null'] = truth            # tp is non-NULL
+            elif atom.k == 'mem' and atom.n == 'monitor' and tpv in a:
+                seen['monitor'] = truth
+            elif atom.k == 'bin' and atom.op == '==' and '->state' in a and 'NOT_READY' in ''.join(sorted(gcn(f, atom))):
+                seen['state'] = not truth       # state is not NOT_READY
+        for k, v in seen.items():
+            if v is not True:
+                bad.setdefault(k, pi.id)
+    rc.expect(npaths >= 1, 'dispatch:paths', f.where(), 'no path of msg_dispatch reaches msg_dispatch_taskpool', note='%d paths to dispatch_taskpool' % npaths)
+    names = {'null': 'the taskpool is registered (tp != NULL)', 'monitor': 'it is monitored (tdm.monitor != NULL)', 'state': 'its state is not NOT_READY'}
+    for k in ('null', 'monitor', 'state'):
+        rc.expect(k not in bad, 'dispatch:tested:%s' % k, f.where(),
+                  'msg_dispatch applies the notification on a path where the latest lookup of the taskpool was not tested for: %s (path %s)' % (names[k], bad.get(k)),
+                  note='before dispatch_taskpool, on the latest lookup: %s' % names[k])
+    # the parked message is pushed under the list lock
+    from sa.facts import lockset_analysis
+    from sa.tables import BASE_LOCKS
+    ls = lockset_analysis(f, BASE_LOCKS)
+    push = [e for e in f.calls() if e.fn in ('parsec_list_nolock_push_back', 'parsec_list_nolock_push_front', 'parsec_list_push_back')]
+    ok = len(push) == 1 and (push[0].fn == 'parsec_list_push_back' or any('delayed_messages' in l for l in (ls.must_before(push[0]) or ())))
+    rc.expect(ok, 'dispatch:park-locked', push[0].loc if push else f.where(), 'the delayed notification must be appended to the delayed list under its lock', note='delayed message appended under the list lock')
+
+
+def gcn(f, e):
+    from rules import gencommon as gc
+    return gc.macro_names(f, e) | {x.s for x in e.walk() if x.k == 'ref'}
